@@ -202,3 +202,125 @@ def replay(res, tag, path, defs=()):
     print("model :", model[0] if model else err)
     print("oracle:", orc.get(0, "ok") if orc is not None else err)
     return 1 if (err or orc or impl != model) else 0
+
+
+# ---------------------------------------------------------------- C17 version word
+def mk_ver(vins, locked, insdel, splitting, vsplit, deleted, root, border):
+    return (vins | (locked << 29) | (insdel << 30) | (splitting << 31) | (vsplit << 32) |
+            (deleted << 61) | (root << 62) | (border << 63))
+
+
+def gen_ver(rng, tier):
+    ctrs = [0, 1, 2, 1 << 28, (1 << 29) - 2, (1 << 29) - 1]
+    cases = []
+    dist = dict(decode=0, unlock=0, lock=0, stable=0, set=0, inc=0)
+    words = []
+    for flags in range(64):
+        f = [(flags >> i) & 1 for i in range(6)]
+        for vi in ctrs:
+            for vs in (ctrs if tier == "thorough" else [rng.choice(ctrs), (1 << 29) - 1]):
+                words.append(mk_ver(vi, f[0], f[1], f[2], vs, f[3], f[4], f[5]))
+    for _ in range(200 if tier == "quick" else 3000):
+        words.append(rng.getrandbits(64))
+    for w in words:
+        cases.append("ver decode %x" % w); dist["decode"] += 1
+        cases.append("ver unlock %x" % w); dist["unlock"] += 1
+        cases.append("ver lock %x" % w); dist["lock"] += 1
+        cases.append("ver stable %x" % w); dist["stable"] += 1
+        if rng.random() < 0.5:
+            fld = rng.choice(["locked", "insdel", "splitting", "deleted", "root", "border"])
+            cases.append("ver set %x %s %d" % (w, fld, rng.randrange(2))); dist["set"] += 1
+        if rng.random() < 0.5:
+            cases.append("ver incv %x" % w); cases.append("ver incs %x" % w); dist["inc"] += 2
+    cases.append("ver init")
+    return cases, dist
+
+
+def nontrivial_ver(case):
+    t = case.split()
+    return t[1] in ("unlock", "lock", "set", "incv", "incs") and len(t) > 2 and int(t[2], 16) != 0
+
+
+# ---------------------------------------------------------------- C18 key order
+def wf_tuple(rng, alph=(0x00, 0x01, 0x61, 0x80, 0xff)):
+    ln = rng.choice([0, 1, 2, 3, 7, 8, 9, 9])
+    nb = min(ln, 8)
+    b = [rng.choice(alph) for _ in range(nb)] + [0] * (8 - nb)
+    s = int.from_bytes(bytes(b), "big")
+    return s, ln
+
+
+def gen_key(rng, tier):
+    cases = []
+    dist = dict(lt=0, oftuple=0, border=0, interior=0, malformed=0)
+    n_pairs = 1500 if tier == "quick" else 20000
+    # systematic: all length pairs x a few slice relations
+    for la in range(10):
+        for lb in range(10):
+            for rel in range(4):
+                a = wf_tuple(rng)
+                nb = min(la, 8)
+                sa = int.from_bytes(bytes([rng.choice((0, 1, 0x61, 0xff)) for _ in range(nb)] + [0] * (8 - nb)), "big")
+                if rel == 0:
+                    sb = sa
+                elif rel == 1:
+                    sb = sa ^ (1 << rng.randrange(64))
+                else:
+                    sb = wf_tuple(rng)[0]
+                nb2 = min(lb, 8)
+                sb &= ~((1 << (8 * (8 - nb2))) - 1) if nb2 < 8 else (1 << 64) - 1
+                cases.append("key lt %x %x %x %x" % (sa, la, sb, lb)); dist["lt"] += 1
+    for _ in range(n_pairs):
+        a, b = wf_tuple(rng), wf_tuple(rng)
+        if rng.random() < 0.3:
+            b = (a[0], b[1]) if min(b[1], 8) >= min(a[1], 8) else b
+        cases.append("key lt %x %x %x %x" % (a[0], a[1], b[0], b[1])); dist["lt"] += 1
+    for _ in range(n_pairs // 10):
+        # malformed: non-zero bytes past the length (operator< is still deterministic)
+        cases.append("key lt %x %x %x %x" % (rng.getrandbits(64), rng.randrange(10), rng.getrandbits(64), rng.randrange(10)))
+        dist["malformed"] += 1
+    for _ in range(300 if tier == "quick" else 3000):
+        k = bytes(rng.choice((0, 1, 0x61, 0x80, 0xff)) for _ in range(rng.choice([0, 1, 2, 7, 8, 9, 10, 16, 17])))
+        cases.append("key oftuple %s" % (k.hex() if k else "-")); dist["oftuple"] += 1
+
+    def canon(t):
+        return (t[0], t[1])
+    for _ in range(600 if tier == "quick" else 6000):
+        n = rng.randrange(0, 16)
+        ts = sorted({wf_tuple(rng) for _ in range(n)}, key=canon)
+        n = len(ts)
+        k = rng.choice(ts) if ts and rng.random() < 0.5 else wf_tuple(rng)
+        cases.append("key border %x %s %x %x" % (n, " ".join("%x %x" % t for t in ts), k[0], k[1])); dist["border"] += 1
+        seps = [t for t in ts if t[1] != 0]
+        cases.append("key interior %x %s %x %x" % (len(seps), " ".join("%x %x" % t for t in seps), k[0], k[1]))
+        dist["interior"] += 1
+    return cases, dist
+
+
+def nontrivial_key(case):
+    t = case.split()
+    return t[1] in ("lt", "border", "interior") and not (t[1] != "lt" and t[2] == "0")
+
+
+# ---------------------------------------------------------------- C15 value layout
+def gen_val(rng, tier):
+    cases = []
+    dist = dict(create=0, word=0, inline=0)
+    lens = [0, 1, 7, 8, 9, 255, 4095, 4096, (1 << 20) + 1] + ([4 << 20] if tier == "thorough" else [])
+    aligns = [1 << i for i in range(13)]
+    for ln in lens:
+        for al in aligns:
+            cases.append("val create %x %x" % (ln, al)); dist["create"] += 1
+    for _ in range(100 if tier == "quick" else 2000):
+        cases.append("val create %x %x" % (rng.randrange(0, 5000), rng.choice(aligns))); dist["create"] += 1
+    for _ in range(200):
+        w = rng.getrandbits(62) if rng.random() < 0.7 else rng.getrandbits(64)
+        cases.append("val word %x" % w); dist["word"] += 1
+        cases.append("val inline %x" % (rng.getrandbits(62))); dist["inline"] += 1
+    cases.append("val word 4000000000000000")
+    cases.append("val word 0")
+    return cases, dist
+
+
+def nontrivial_val(case):
+    return case.split()[1] == "create"
